@@ -5,6 +5,7 @@ from ..core.frequency import FrequencyAxis
 from ..core.dfunction import DFunction
 from ..core.datasaveable import DataSaveable
 from ..core.managers import EnergyUnitsManaged
+from ..core.managers import energy_units
 from ..core.units import cm2int
 
 
@@ -103,7 +104,9 @@ class AbsSpectrumBase(DFunction, EnergyUnitsManaged, DataSaveable):
         step = (omax-omin)/length
         
         # new frequency axis
-        waxis = FrequencyAxis(omin, length, step)
+        # the points are already in internal units
+        with energy_units("int"):
+            waxis = FrequencyAxis(omin, length, step)
         
         # spline interpolation 
         tck = interpolate.splrep(om, y, s=0)
